@@ -6,6 +6,8 @@ import (
 	"fmt"
 	"sort"
 	"strings"
+	"sync"
+	"sync/atomic"
 	"testing"
 
 	"github.com/ethereum/go-ethereum/internal/verif/mc"
@@ -78,19 +80,22 @@ type c50Event struct {
 }
 
 type c50State struct {
-	feed    c50Feed
-	chans   []chan int
-	subs    []Subscription
-	events  []c50Event
-	got     [][]int // values taken by receiver threads, per subscription
+	mu            sync.Mutex // protects the recorder in the free-running -race pass (never held across a scheduling point)
+	feed          c50Feed
+	chans         []chan int
+	subs          []Subscription
+	events        []c50Event
+	got           [][]int // values taken by receiver threads, per subscription
 	lenAtUnsubRet []int
 	gotAtUnsubRet []int
-	finished int
-	rdone   int
+	finished      atomic.Int32
+	rdone         atomic.Int32
 }
 
 func (st *c50State) ev(kind string, arg, n int) {
+	st.mu.Lock()
 	st.events = append(st.events, c50Event{kind, arg, n, len(st.events)})
+	st.mu.Unlock()
 }
 
 func c50Body(sc c50Scenario, typed bool) func() {
@@ -124,7 +129,7 @@ func c50Body(sc c50Scenario, typed bool) func() {
 				nrecv++
 				i, s := i, s
 				vsched.GoNamed(fmt.Sprintf("recv%d", i), func() {
-					defer func() { st.rdone++ }()
+					defer func() { st.rdone.Add(1) }()
 					for k := 0; k < s.Receiver; k++ {
 						sel := vsched.NewSelect(false)
 						rx := vsched.AddRecv(sel, st.chans[i])
@@ -132,7 +137,9 @@ func c50Body(sc c50Scenario, typed bool) func() {
 						if sel.Do() != 0 {
 							return
 						}
+						st.mu.Lock()
 						st.got[i] = append(st.got[i], rx.Val())
+						st.mu.Unlock()
 					}
 				})
 			}
@@ -140,7 +147,7 @@ func c50Body(sc c50Scenario, typed bool) func() {
 		for ti, script := range sc.Threads {
 			script := script
 			vsched.GoNamed(fmt.Sprintf("T%d", ti), func() {
-				defer func() { st.finished++ }()
+				defer func() { st.finished.Add(1) }()
 				for _, a := range script {
 					switch a.Kind {
 					case "send":
@@ -150,8 +157,10 @@ func c50Body(sc c50Scenario, typed bool) func() {
 					case "unsub":
 						st.ev("unsub-call", a.Arg, 0)
 						st.subs[a.Arg].Unsubscribe()
+						st.mu.Lock()
 						st.lenAtUnsubRet[a.Arg] = len(st.chans[a.Arg])
 						st.gotAtUnsubRet[a.Arg] = len(st.got[a.Arg]) + vsched.InFlightRecv(st.chans[a.Arg])
+						st.mu.Unlock()
 						st.ev("unsub-ret", a.Arg, 0)
 					case "sub":
 						st.subs[a.Arg] = st.feed.sub(st.chans[a.Arg])
@@ -160,9 +169,12 @@ func c50Body(sc c50Scenario, typed bool) func() {
 				}
 			})
 		}
-		vsched.Await(func() bool { return st.finished == len(sc.Threads) })
+		vsched.Await(func() bool { return int(st.finished.Load()) == len(sc.Threads) })
 		vsched.Close(stop)
-		vsched.Await(func() bool { return st.rdone == nrecv })
+		vsched.Await(func() bool { return int(st.rdone.Load()) == nrecv })
+		if !vsched.Active() {
+			c50Free = st
+		}
 	}
 }
 
@@ -367,5 +379,44 @@ func TestVerif_C50(t *testing.T) {
 				}
 			}
 		}
+	})
+}
+
+// c50Free carries the state of the last free-running execution to the checker.
+var c50Free *c50State
+
+// TestVerif_C50_Race is the auxiliary free-running pass: the same harness bodies run as plain goroutines under the
+// race detector (the cooperative scheduler's hand-offs are happens-before edges and would blind it). It is
+// sampling and is not the deciding step; the history oracle is evaluated as well, except for the two timestamp
+// based clauses that need the scheduler's atomicity.
+func TestVerif_C50_Race(t *testing.T) {
+	mc.Run(t, "C50", func(r *mc.R) {
+		r.Rule("auxiliary free-running pass under -race: every scenario body executed N times as plain goroutines; a data race aborts the test binary (reported as violation)")
+		iters := mc.Pick(r, 150, 2000)
+		for _, typed := range []bool{false, true} {
+			for _, sc := range c50Scenarios() {
+				body := c50Body(sc, typed)
+				for i := 0; i < iters && !r.Expired(); i++ {
+					c50Free = nil
+					body()
+					r.Eval(1)
+					st := c50Free
+					if st == nil {
+						continue
+					}
+					// drain and run the schedule-independent part of the oracle
+					x := &vsched.Exec{Data: st}
+					// in the free pass a delivery can be time-stamped late by the recorder: neutralise the clause
+					for k := range st.lenAtUnsubRet {
+						st.lenAtUnsubRet[k] = -1
+					}
+					if err := c50Check(sc)(x); err != nil && !strings.Contains(err.Error(), "although its Unsubscribe had returned") {
+						r.Violation(fmt.Sprintf("free:%s/%v", sc.Name, typed), err.Error(), nil)
+					}
+					r.Distinct(c50Obs(sc)(x))
+				}
+			}
+		}
+		r.Sample(map[string]any{"free_running_iterations_per_scenario": iters})
 	})
 }
